@@ -66,6 +66,11 @@ func (e *Engine) externModel(st *State, res ssa.Value, callee *ssa.Function, arg
 	case "math.Abs":
 		e.bindResult(st, res, Val{K: KFloat, Ty: rt, T: "(fp.abs " + args[0].T + ")"})
 		return true
+	case "math/bits.RotateLeft64":
+		x, k := args[0], args[1]
+		km := "(bvand " + k.T + " #x000000000000003f)"
+		e.bindResult(st, res, Val{K: KInt, Ty: rt, T: "(bvor (bvshl " + x.T + " " + km + ") (bvlshr " + x.T + " (bvand (bvsub #x0000000000000040 " + km + ") #x000000000000003f)))"})
+		return true
 	case "math.Float64bits", "math.Float64frombits":
 		return false
 	case "strings.HasPrefix", "strings.HasSuffix", "strings.Contains", "strings.EqualFold":
